@@ -50,11 +50,26 @@ derivation (it holds a `RefCell` cache and a syntax node); its `unsafe impl Send
 assertion outside the claim of C38, recorded in notes/tools.md -/
 theorem C38_semantic_model_not_derivable : (sol.get 1).1 = false ∧ (sol.get 1).2 = false := by decide +kernel
 
+/-- The justified allow-list of shared mutable state. Every entry must say why concurrent read-only queries
+cannot observe each other through it (e.g. "monotone counter, never read by queries", "write-once memo whose
+value does not depend on the caller"). It is EMPTY on this tree: the analysis holds no `Mutex` / `RwLock` /
+`Atomic*` / `Cell` / `RefCell` / `OnceLock` field anywhere, and the two crates have no mutable `static`
+outside test modules — every query works on its own `SemanticModel` / `DiagnosticContext` / `LuaInferCache`. -/
+def allowedSharedMutable : List String := []
+
+/-- **No unreviewed shared mutable state.** `Send`/`Sync` say nothing about *logical* races: a scratch map
+behind `Arc<Mutex<…>>` in `LuaDiagnostic`, shared by concurrent `diagnose_file` calls, is thread safe for
+rustc and still lets one file see another file's cached verdicts. Every interior-mutability field reachable
+from `&EmmyLuaAnalysis` (and every mutable static of the two crates), as extracted from the source on this run,
+must be in the justified allow-list — a new shared cache breaks this bridge even when rustc is satisfied. -/
+theorem C38_shared_mutable_allowed : ∀ s ∈ sharedMutable, s ∈ allowedSharedMutable := by decide
+
 /-! Non-vacuity (tests, labelled as such): the rules do reject what Rust rejects. -/
 example : evalT [] (.both (L [.leaf true true, .cell (L [.leaf true true])])) = (true, false) := by decide
 example : evalT [] (.arc (L [.cell (L [.leaf true true])])) = (false, false) := by decide
 example : evalT [] (.mutex (L [.cell (L [.leaf true true])])) = (true, true) := by decide
 example : solve [[.app 1 (L [])], [.leaf false true]] = [(false, true), (false, true)] := by decide
 example : solve [[.both (L [.app 0 (L [])])]] = [(true, true)] := by decide   -- recursive type: coinductive
+example : ¬ (∀ s ∈ ["LuaDiagnostic.table_check_scratch: Mutex"], s ∈ allowedSharedMutable) := by decide
 
 end AutoTrait
